@@ -447,7 +447,7 @@ def run(ctx):
         'samples': [recs[len(recs) // 3], recs[-1]],
         'evaluations': len(recs) + sum(v['replayed'] for v in tstats.values()),
         'distinct_nontrivial': len(nontrivial),
-        'rule': 'timed executions: exhaustive schedules of <= 2 peer events (non-matching chunk, matching chunk, hang-up) at ticks 0..4 '
+        'rule': 'timed executions: exhaustive schedules of <= 2 peer events (non-matching chunk, matching chunk, hang-up, urgent data = wake-up without data) at ticks 0..4 '
                 'x call at tick 0/1 x timeout in {-1, None, 0, 1, 2} x entry point x transport (quick: sampled), trickles, waitnoecho '
                 'with the echo flag cleared at every tick; distinct non-trivial = distinct (entry, timeout, start, events) with at least '
                 'one peer event; plus every single-call interleaving of the read_nonblocking models',
@@ -456,7 +456,10 @@ def run(ctx):
         'known_findings_hit': nknown,
     }, assumptions=['durations are measured on the virtual clock the harness advances (timed waits and sleeps of the code under test advance it); '
                     'rounding to ticks hides overheads below half a tick (delayafterread)',
-                    'signals handled by the parent while it waits (EINTR) are retried by Python itself (PEP 475) and not exercised'],
+                    'signals handled by the parent while it waits: Python itself retries an interrupted select()/poll() (PEP 475), so the EINTR '
+                    'branches of select_ignore_interrupts / poll_ignore_interrupts are unreachable; exercised in real time only (wall-clock runs with '
+                    'an interval timer), in the model as the EnvWake / Woken actions',
+                    'urgent data on a TCP descriptor is replayed with the select() flavour of fdspawn only (poll(): blocking read, a reported defect)'],
         wall_s=ctx.wall(), violations=nviol)
     return status
 
